@@ -5,11 +5,15 @@
  R1c global cursors into fixed arrays (scope stack, include stack) are bounds-checked at every increment
  R2  escape-then-free: a pointer stored into a longer-lived location is not freed while still stored
  R4  EXIT-severity diagnostics leave through exit(EXPRESS_fail(..)); DUMP through abort()   (shared with C04)
+ R5  a recursive descent guarded by a visited mark sets the mark on its own node before descending
+ R6  nullable values are tested before use (may-be-NULL walk over the CFG, nullness.py): elements of lists whose links a
+     writer sets to NULL (unresolvable USE / REFERENCE), and front-end locals that receive a possibly-NULL lookup result
 """
 import json
 import os
 
-from engines import known_facts, call_args
+from engines import known_facts, call_args, is_null_const
+from nullness import Nullness, may_return_null
 from ir import walk, strip, expr_str, access_path, array_len
 from rules import memsafe
 
@@ -24,7 +28,11 @@ EXPLANATION = (
     "sites) must not fall below the value confirmed on the pinned tree; (R1c) every increment of a global cursor into "
     "a fixed array (parser scope stack, include-file stack) is guarded by a bound test; (R2) no pointer is passed to "
     "free() while a longer-lived location written in the same function still holds it; (R4) exit paths of the "
-    "diagnostic module. Not decided: heap-block destinations beyond two idioms (listed as heap_not_decided), parser "
+    "diagnostic module; (R5) a recursion guarded by a visited mark sets the mark before descending; (R6) a may-be-NULL walk "
+    "over the CFG (conditions evaluated under `v == NULL`, short-circuit and ?: honoured, callee parameters summarised): "
+    "elements of lists into whose links some writer stores NULL (discovered: the USE and REFERENCE schema lists) are not "
+    "dereferenced untested in any tool-reachable traversal, and in the front end no local that receives the result of a "
+    "function that may return NULL (least fixed point over `return`) is dereferenced while it may still be NULL. Not decided: heap-block destinations beyond two idioms (listed as heap_not_decided), parser "
     "stack growth, generated lexer internals, hash.c internals, bounded time, signed overflow.")
 
 ENTRIES = ["main", "EXPRESSparse", "EXPRESSresolve", "print_file", "EXPRESSinit_init"]
@@ -289,6 +297,121 @@ def r5_recursion_marks(prog, res):
     res.floor("R5.mark_before_descent", "field-guarded recursive descents", n, 1)
 
 
+def _listdo_loops(f):
+    """(loop node, list expression, element Var, element assignment) of every LISTdo expansion"""
+    for n in f.walk():
+        if n["k"] != "Compound" or n.get("mo") != "LISTdo":
+            continue
+        ch = n.get("ch") or []
+        if len(ch) < 4 or ch[0]["k"] != "DeclStmt" or ch[1]["k"] != "DeclStmt":
+            continue
+        lvar = ch[0]["ch"][0]
+        evar = ch[1]["ch"][0]
+        if not lvar.get("ch") or lvar["ch"][0] is None:
+            continue
+        asg = [x for x in walk(n) if x["k"] == "Assign" and strip(x["ch"][0])["k"] == "Ref" and strip(x["ch"][0]).get("d") == evar["d"]
+               and x.get("mo") == "LISTdo"]
+        if not asg:
+            continue
+        yield n, lvar["ch"][0], evar, asg[0]
+
+
+def r6_nullable_elements(prog, res, reachable, nn):
+    """Lists whose links are set to NULL somewhere (an unresolvable USE/REFERENCE leaves a NULL entry): every traversal
+    reachable from a tool must not dereference the element while it may be NULL."""
+    # 1. writers: `link->data = NULL` inside a walk over a list parameter
+    writers = {}
+    for f in prog.all_functions():
+        if f.component == "test":
+            continue
+        for n in f.walk():
+            if n["k"] == "Assign" and n.get("op", "=") == "=":
+                lhs = strip(n["ch"][0])
+                if lhs["k"] == "Member" and lhs.get("q") == "Link_::data" and is_null_const(n["ch"][1]):
+                    # which list?  the enclosing LISTdo_links walks a parameter
+                    for a in f.ancestors(n):
+                        if a["k"] == "Compound" and a.get("m") == "LISTdo_links" and a.get("ch") and a["ch"][0]["k"] == "DeclStmt":
+                            init = strip((a["ch"][0]["ch"][0].get("ch") or [None])[0])
+                            if init is not None and init["k"] == "Ref" and init.get("dk") == "param":
+                                idx = [i for i, p_ in enumerate(f.params) if p_["d"] == init["d"]]
+                                if idx:
+                                    writers[(f.key, idx[0])] = (f.name, f.where(n))
+    fields = {}
+    for f in prog.all_functions():
+        if f.component == "test":
+            continue
+        for c in f.calls():
+            for (fk, idx), (wname, wwhere) in writers.items():
+                if c.get("fk") == fk:
+                    a = call_args(c)
+                    if idx < len(a):
+                        m = strip(a[idx])
+                        if m is not None and m["k"] == "Member" and m.get("q"):
+                            fields[m["q"]] = "%s() stores NULL into its links at %s; called with this list at %s" % (wname, wwhere, f.where(c))
+    res.info["r6_nullable_lists"] = fields
+    res.floor("R6.nullable_list_element", "lists whose links can hold NULL (discovered from their writers)", len(fields), 2)
+    n = 0
+    unreachable = []
+    for f in prog.all_functions():
+        if f.component == "test" or f.cfg is None:
+            continue
+        for lp, lexpr, evar, asg in _listdo_loops(f):
+            q = [x.get("q") for x in walk(lexpr) if x["k"] == "Member" and x.get("q") in fields]
+            if not q:
+                continue
+            if f.key not in reachable:
+                unreachable.append("%s %s (over %s): not reachable from a tool entry point" % (f.where(lp), f.name, q[0]))
+                continue
+            pos = f.cfg.locate(asg)
+            hits = [h for h in nn.explore(f, evar["d"], pos) if h[1] != "return"] if pos is not None else []
+            n += 1
+            key = "R6|%s|%s|%s over %s" % (f.relfile(), f.name, evar["n"], q[0].split("::")[-1])
+            res.add("R6.nullable_list_element", key, f.where(lp), not hits,
+                    "the element `%s` of %s is never dereferenced while it may be NULL" % (evar["n"], q[0]) if not hits else
+                    "%s can hold NULL links (%s), but the element `%s` is used without a NULL test: line %s %s"
+                    % (q[0], fields[q[0]], evar["n"], hits[0][0]["l"], hits[0][1]))
+    res.info["r6_unreachable_traversals"] = unreachable
+    res.floor("R6.nullable_list_element", "tool-reachable traversals of such lists", n, 3)
+
+
+def r6_lookup_results(prog, res, reachable, nn, rule="R6.lookup_result_tested", components=("express",), floor=45):
+    """Front end (the only code that sees invalid schemas): a local that receives the result of a function that may
+    return NULL is not dereferenced while it may still be NULL."""
+    mrn = may_return_null(prog, nn)
+    res.info["r6_may_return_null"] = {v[0]: v[1] for v in mrn.values()}
+    n = 0
+    counters = {}
+    for f in prog.all_functions():
+        if f.component not in components or f.cfg is None or f.key not in reachable:
+            continue
+        for x in f.walk():
+            d = name = call = None
+            if x["k"] == "Assign" and x.get("op", "=") == "=":
+                lhs, rhs = strip(x["ch"][0]), strip(x["ch"][1])
+                if lhs["k"] == "Ref" and lhs.get("dk") in ("local", "param") and rhs is not None and rhs["k"] == "Call" and rhs.get("fk") in mrn:
+                    d, name, call = lhs["d"], lhs["n"], rhs
+            elif x["k"] == "Var" and x.get("ch") and x["ch"][0] is not None:
+                rhs = strip(x["ch"][0])
+                if rhs is not None and rhs["k"] == "Call" and rhs.get("fk") in mrn:
+                    d, name, call = x["d"], x["n"], rhs
+            if d is None:
+                continue
+            pos = f.cfg.locate(x)
+            if pos is None:
+                continue
+            n += 1
+            hits = [h for h in nn.explore(f, d, pos) if h[1] != "return"]
+            base = "R6L|%s|%s|%s=%s" % (f.relfile(), f.name, name, call.get("fn"))
+            c0 = counters.get(base, 0)
+            counters[base] = c0 + 1
+            key = base if c0 == 0 else "%s#%d" % (base, c0)
+            res.add(rule, key, f.where(x), not hits,
+                    "`%s` (result of %s, which %s) is tested before every dereference" % (name, call.get("fn"), mrn[call["fk"]][1]) if not hits else
+                    "`%s` receives the result of %s(), which %s, and is used without a NULL test: line %s %s"
+                    % (name, call.get("fn"), mrn[call["fk"]][1], hits[0][0]["l"], hits[0][1]))
+    res.floor(rule, "locals that receive a possibly-NULL lookup result in the front end", n, floor)
+
+
 def run(prog, res, tier):
     reachable, keys = memsafe.reach(prog, CFG)
     res.info["reachable_functions"] = len(reachable)
@@ -298,6 +421,9 @@ def run(prog, res, tier):
     r1_cursors(prog, res)
     r2_escape_then_free(prog, res)
     r5_recursion_marks(prog, res)
+    nn = Nullness(prog)
+    r6_nullable_elements(prog, res, reachable, nn)
+    r6_lookup_results(prog, res, reachable, nn)
     # L* (identifier length for which every assumption-discharged write is safe) must not shrink
     floor = CFG.get("lstar_floor")
     if floor is not None:
